@@ -562,4 +562,51 @@ theorem C02_flat_invalid_if_misrouted :
       (specDownstream C02.Example.svcs1 Flat.Example.data))
   == some (false, [("A", 1), ("B", 1)])
 
+/-! ### the open finding `variable-named-id`, seen by the predicate -/
+
+namespace C02.VarNamedId
+open PebblesVerif.Flat C02.Example
+
+def ageArgs : List ArgDef := [⟨"unit", tStr, none, "", []⟩]
+def animalM : TypeDef :=
+  { name := "Animal", kind := .object,
+    fields := [idF, ⟨"name", [], tStr, none, "", []⟩, ⟨"age", ageArgs, tStr, none, "", []⟩] }
+def merged : Schema :=
+  { types := [animalM, { name := "Query", kind := .object, fields := [⟨"animal", [], .named "Animal", none, "", []⟩] }],
+    query := some "Query" }
+/-- service `B`: `type Animal implements Node { id: ID!  age(unit: String): String }` -/
+def animalB : TypeDef :=
+  { name := "Animal", kind := .object, fields := [idF, ⟨"age", ageArgs, tStr, none, "", []⟩], interfaces := ["Node"] }
+def schemaB : Schema := { types := [animalB, nodeT, queryB], possible := [("Node", ["Animal"])], query := some "Query" }
+def tum : Tum := [("Query", ⟨[("animal", "A")], false⟩), ("Animal", ⟨[("name", "A"), ("age", "B")], true⟩)]
+def ctx : PCtx := ⟨merged, tum, .query, ""⟩
+def ageSel : Sel := .field "age" "age" [⟨"unit", .var "id" "String"⟩] [] tStr ageArgs []
+/-- the client operation `query($id: String) { animal { name age(unit: $id) } }` — a client
+    variable that happens to be called `id` -/
+def op : Op :=
+  ⟨.query, "", [⟨"id", tStr, none⟩], [.field "animal" "animal" [] [] (.named "Animal") [] [leaf "name" tStr, ageSel]]⟩
+/-- the child step the planner model builds for it: `node(id: $id) { ... on Animal { age(unit: $id) } }` at `B` -/
+def stepB : Step := .mk "B" "Animal" (convertToNodeQuery "Animal" [ageSel]) ["animal"] []
+
+-- (a test, by the evaluator) `stepB` IS the child step of the model's plan for `op`
+#guard (match plan ctx op with
+  | .ok ([.mk _ _ _ _ [child]], _) => child.url == "B" && queryKey ctx child == queryKey ctx stepB
+  | _ => false)
+
+end C02.VarNamedId
+
+/-- **`ValidFor` sees the open finding `C02-variable-named-id`.** For the client operation
+    `query($id: String) { animal { name age(unit: $id) } }` (`age` routed to `B`) the follow-up the
+    model builds is `query($id: String) { node(id: $id) { ... on Animal { age(unit: $id) } } }`: the
+    header synthesised from the argument positions declares `$id` ONCE, with the type of the LAST
+    position walked (`String`), and the request uses it in `node(id:)`, a position of type `ID!`.
+    The request fails `ValidFor` for `B`'s schema, which declares everything it selects — the
+    defect the harness reports on the real gateway (known finding, class `variable-named-id`) is a
+    violation of this predicate on the model. -/
+theorem C02_validFor_rejects_variable_named_id :
+    (header C02.VarNamedId.ctx C02.VarNamedId.stepB).varDecls = ["$id: String"] ∧
+    C02.ValidFor C02.VarNamedId.schemaB (requestOf C02.VarNamedId.ctx C02.VarNamedId.stepB [("id", .str "x")]) = false ∧
+    C02.declares C02.VarNamedId.schemaB "Animal" "age" = true := by
+  refine ⟨?_, ?_, ?_⟩ <;> decide
+
 end PebblesVerif
